@@ -161,5 +161,6 @@ Record cfg := mkCfg {
   fix9 : bool;            (* LeftOptionalJoin NULL-extends when the right table is empty *)
   fix14 : bool;           (* addSpecifiedData skips fetched rows that disagree with the row on a shared binding *)
   fix15 : bool;           (* updateTimeBoundsForRow guards the missing cell and uses Before for the upper bound *)
-  fixoid : bool           (* tripleToRow: ID alias on a literal object skips the triple (NULL if optional) instead of failing *)
+  fixoid : bool;          (* tripleToRow: ID alias on a literal object skips the triple (NULL if optional) instead of failing *)
+  fixsb : bool            (* a fully specified clause / lookup applies the time bounds to its own temporal predicate *)
 }.
